@@ -586,4 +586,55 @@ theorem rel_init (hs : SongNoEnd song) (hr : NoEnd root) (items : List Item) (hp
 
 end
 
+/-! ### generic facts about what a hook can see -/
+section
+variable (song : Song) (root : List Event)
+
+/-- a property of event types that holds for every event of every track (and for `END`) holds
+for every event a hook sees -/
+theorem hooks_of (P : Nat → Prop) (hend : P endEvent.type)
+    (h : ∀ tr e, e ∈ codeOf song root tr → P e.type) :
+    ∀ c c' v f, coreStep song root c = .ok (c', .hook v f) → P v.type := by
+  intro c c' v f hc
+  have hfetch : ∀ tr pos, P (fetch (codeOf song root tr) pos).type := by
+    intro tr pos
+    unfold fetch
+    cases hg : (codeOf song root tr)[pos]? with
+    | none => exact hend
+    | some e => exact h tr e (List.mem_of_getElem? hg)
+  unfold coreStep at hc
+  simp only [] at hc
+  repeat' split at hc
+  all_goals first
+    | (simp at hc; done)
+    | (simp only [Except.ok.injEq, Prod.mk.injEq, Out.hook.injEq] at hc
+       obtain ⟨_, rfl, _⟩ := hc
+       first
+         | exact hfetch _ _
+         | exact h _ _ (List.mem_of_getElem? (by assumption)))
+
+/-- an `event` report of `step` is a hook of the control step -/
+theorem step_event_hook (s bs : PState) (v : Event) (hs : step song root true s = .ok (bs, .event v)) :
+    ∃ c' f, coreStep song root s.core = .ok (c', .hook v f) := by
+  unfold step at hs
+  cases hc : coreStep song root s.core with
+  | error e => rw [hc] at hs; simp at hs
+  | ok q =>
+    obtain ⟨c', o⟩ := q
+    rw [hc] at hs
+    simp only at hs
+    cases o with
+    | hook v' f =>
+      unfold accStep at hs
+      simp only at hs
+      split at hs <;>
+        (simp only [Except.ok.injEq, Prod.mk.injEq, Emit.event.injEq] at hs; obtain ⟨_, rfl⟩ := hs; exact ⟨c', f, rfl⟩)
+    | ret f => simp [accStep] at hs
+    | rootEnd f =>
+      unfold accStep at hs
+      simp only at hs
+      split at hs <;> simp at hs
+
+end
+
 end Ctrmml.TickStream
